@@ -710,6 +710,10 @@ class Symex:
     def contains(self, coll, x, node):
         if isinstance(coll, Obj):
             coll = coll.term
+        if isinstance(x, Obj) and isinstance(coll, (list, tuple, set, frozenset, dict)) and coll and \
+                all(isinstance(e, Obj) for e in coll):
+            # an abstract record among abstract records: decided by identity, as ``==`` between two records is
+            return any(e is x for e in coll)
         if isinstance(x, Obj):
             x = x.term
         if isinstance(coll, T):
